@@ -4,6 +4,8 @@ package main
 // stalls; measured: time between the source's Start returning and Execute returning.
 // input: "to <timeoutSec> stall=<root|inner|leaf|handler|none>:<forever|long|send> n=<events> fill=<0|1> pw=<parent workers> hw=<handler workers>"
 // send = the node is stalled forever inside Executor.SendMessage (a message sender that never returns)
+// slow = the node is not stalled but takes 100 ms per event: far too slow to drain its backlog within the timeout
+// shutblocks=1: the stalled node's Shutdown hook cannot return while its processing call is wedged (it needs the same lock)
 // flush=stuck: the message sender's Kafka producer still has an undeliverable record queued at shutdown (Flush keeps
 // reporting 1 outstanding); sd=1: Executor.Shutdown() is called early and the channel it returns is ignored
 
@@ -47,6 +49,8 @@ func genTimeout(r *rng, n int, tier string, emit func(string)) {
 	emit("to 1 stall=inner:send n=2 fill=0 pw=1 hw=1")
 	emit("to 1 stall=leaf+handler:forever n=4 fill=0 pw=2 hw=2")
 	emit("to 3 stall=none:forever n=10 fill=0 pw=1 hw=1 flush=stuck")
+	emit("to 1 stall=root:slow n=30 fill=0 pw=1 hw=1")
+	emit("to 1 stall=leaf:forever n=3 fill=0 pw=1 hw=1 shutblocks=1")
 	emit("to 3 stall=none:forever n=30 fill=0 pw=1 hw=1 sd=1")
 	if tier == "thorough" {
 		for i := 0; i < n; i++ {
@@ -55,7 +59,7 @@ func genTimeout(r *rng, n int, tier string, emit func(string)) {
 			// keep the number of events within what the pipeline can absorb above the stalled node, so that the main loop is
 			// not blocked on a full root buffer (that situation is the separate fill=1 scenario, known finding F6)
 			room := map[string]int{"root": pw + 1, "inner": pw + 2, "leaf": pw + 4, "handler": hw + 6}[role]
-			emit(fmt.Sprintf("to %d stall=%s:%s n=%d fill=0 pw=%d hw=%d", r.pick(1, 2, 6), role, r.pickS("forever", "long", "send"), r.intn(room)+1, pw, hw))
+			emit(fmt.Sprintf("to %d stall=%s:%s n=%d fill=0 pw=%d hw=%d", r.pick(1, 2, 6), role, r.pickS("forever", "long", "send", "forever"), r.intn(room)+1, pw, hw))
 		}
 		emit("to 2 stall=inner:forever n=120 fill=1 pw=2 hw=1")
 		emit("to 2 stall=inner+handler:long n=3 fill=0 pw=2 hw=1")
@@ -104,15 +108,25 @@ func execTimeout(input string) string {
 	}
 	gate := make(chan struct{})
 	for _, r1 := range strings.Split(role, "+") {
+		var sp *nodeSpec
 		switch r1 {
 		case "root":
-			root.gate = gate
+			sp = root
 		case "inner":
-			inner.gate = gate
+			sp = inner
 		case "leaf":
-			leaf.gate = gate
+			sp = leaf
 		case "handler":
-			handler.gate = gate
+			sp = handler
+		}
+		if sp == nil {
+			continue
+		}
+		if mode == "slow" {
+			sp.latency = 100 * time.Millisecond
+		} else {
+			sp.gate = gate
+			sp.shutBlocks = opt["shutblocks"] == "1"
 		}
 	}
 	specs := []*nodeSpec{root, inner, leaf, handler}
